@@ -16,7 +16,8 @@ program assigned later).  The program may
   * re-bind `model.step = f` or `del model.step` after construction,
   * assign `model._user_step = f`.
 
-Program functions are plain functions `f_k(*args, **kw)` that record (k, `model.steps` as they see it, their arguments).
+Program functions are plain functions `f_k(*args, **kw)` that record (k, `model.steps` as they see it, their arguments);
+those with `k ≥ 50` then raise a `RuntimeError` (user code that fails: the count must stand).
 `Model.__init__` runs once per instance (ASSUMPTIONS of the check).
 -/
 namespace Mesa.Steps
@@ -64,8 +65,11 @@ structure BResult where
   obj : Obj
   entries : List Entry       -- records of the class's step bodies
   fns : List FnCall          -- records of program functions
-  ok : Bool                  -- false = TypeError
+  ok : Bool                  -- false = an exception left the call (TypeError of the class chain, or a failing function)
 deriving Repr, DecidableEq
+
+/-- program functions numbered 50 and up raise (after making their record) -/
+def raisesFn (f : Nat) : Bool := decide (50 ≤ f)
 
 /-- the stop rule of the harness bodies: every body execution counts -/
 def tick (i : Inst) (k : Nat) : Inst :=
@@ -78,8 +82,8 @@ def Obj.call (o : Obj) (args : List Int) : BResult :=
     -- `_wrapped_step`: `self.steps += 1`, then `self._user_step(*args)`
     match o.userStep with
     | .chain => let r := callStep o.inst args; ⟨{ o with inst := r.1 }, r.2.1, [], r.2.2⟩
-    | .fn f => ⟨{ o with inst := { o.inst with steps := o.inst.steps + 1 } }, [], [⟨f, o.inst.steps + 1, args⟩], true⟩
-  | some (.fn f) => ⟨o, [], [⟨f, o.inst.steps, args⟩], true⟩
+    | .fn f => ⟨{ o with inst := { o.inst with steps := o.inst.steps + 1 } }, [], [⟨f, o.inst.steps + 1, args⟩], !raisesFn f⟩
+  | some (.fn f) => ⟨o, [], [⟨f, o.inst.steps, args⟩], !raisesFn f⟩
   | none =>
     -- no instance attribute: the class's own `step`, called directly — nothing counts
     let r := runChain o.inst.hier 0 args o.inst.steps
